@@ -194,3 +194,176 @@ def inlined(repo, fi, depth: int = 2):
         if not changed:
             break
     return fn, counter[0]
+
+
+def effective_node(repo, fi):
+    """The function as it runs when it is decorated by a package decorator that only adds a prologue:
+
+        def deco(handler):                      @deco
+            @wraps(handler)                     def f(self, code, idx, ...):
+            def wrapper(self, code, idx, ...):      <body>
+                <prologue>
+                return handler(self, code, idx, ...)
+            return wrapper
+
+    -> a copy of `f` whose body is <prologue> + <body> (the preamble hoisted out of several handlers into a decorator is read where it
+    executes).  Anything else (foreign decorators, a wrapper that does more than call through at its end, renamed or reordered parameters)
+    returns the node unchanged."""
+    fn = fi.node
+    if not isinstance(fn, ast.FunctionDef) or len(fn.decorator_list) != 1 or not isinstance(fn.decorator_list[0], ast.Name):
+        return fn
+    decos = repo.find_funcs(fi.module, fn.decorator_list[0].id)
+    if len(decos) != 1 or not isinstance(decos[0].node, ast.FunctionDef):
+        return fn
+    d = decos[0].node
+    dps = [a.arg for a in d.args.posonlyargs + d.args.args]
+    if len(dps) != 1:
+        return fn
+    inner = [s for s in d.body if isinstance(s, ast.FunctionDef)]
+    if len(inner) != 1 or not (isinstance(d.body[-1], ast.Return) and isinstance(d.body[-1].value, ast.Name) and d.body[-1].value.id == inner[0].name):
+        return fn
+    w = inner[0]
+    last = w.body[-1] if w.body else None
+    if not (isinstance(last, ast.Return) and isinstance(last.value, ast.Call) and isinstance(last.value.func, ast.Name) and last.value.func.id == dps[0]):
+        return fn
+    wps = [a.arg for a in w.args.posonlyargs + w.args.args]
+    fps = [a.arg for a in fn.args.posonlyargs + fn.args.args]
+    passed = [a.id if isinstance(a, ast.Name) else None for a in last.value.args]
+    if wps != fps or passed != fps or last.value.keywords or w.args.vararg or w.args.kwarg:
+        return fn
+    out = copy.deepcopy(fn)
+    prologue = [copy.deepcopy(s) for s in w.body[:-1]
+                if not (isinstance(s, ast.Expr) and isinstance(s.value, ast.Constant) and isinstance(s.value.value, str))]
+    out.body = prologue + out.body
+    out.decorator_list = []
+    return out
+
+
+# ----------------------------------------------------------------------------------------------------------------------
+# a small partial evaluator for the inlined view (used by the rules that compare what two arms of a function push)
+
+def _pure(e) -> bool:
+    """Expressions whose repeated evaluation reads the same: names, literals, attribute chains, slices of those, getattr(x, 'c'[, d])."""
+    if isinstance(e, (ast.Name, ast.Constant)):
+        return True
+    if isinstance(e, ast.Attribute):
+        return _pure(e.value)
+    if isinstance(e, ast.Subscript) and isinstance(e.slice, ast.Slice):
+        return _pure(e.value) and all(x is None or _pure(x) for x in (e.slice.lower, e.slice.upper, e.slice.step))
+    if isinstance(e, ast.UnaryOp) and isinstance(e.op, (ast.USub, ast.Not)):
+        return _pure(e.operand)
+    if isinstance(e, ast.Tuple):
+        return all(_pure(x) for x in e.elts)
+    if isinstance(e, ast.Call) and isinstance(e.func, ast.Name) and e.func.id == 'getattr' and 2 <= len(e.args) <= 3 and not e.keywords:
+        return all(_pure(a) for a in e.args)
+    return False
+
+
+class _Repl(ast.NodeTransformer):
+    def __init__(self, env):
+        self.env = env
+
+    def visit_Name(self, node):
+        if isinstance(node.ctx, ast.Load) and node.id in self.env:
+            return copy.deepcopy(self.env[node.id])
+        return node
+
+
+def _assigned_in(nodes) -> set:
+    out = set()
+    for n in nodes:
+        for x in ast.walk(n):
+            if isinstance(x, ast.Name) and isinstance(x.ctx, (ast.Store, ast.Del)):
+                out.add(x.id)
+    return out
+
+
+def simplify(fn, const_strs=None, max_unroll: int = 6):
+    """Fold `if <literal>`, forward-substitute locals bound to pure expressions (straight-line, per block) and unroll `for x in T` when
+    `const_strs(T expr)` gives a short tuple of string constants.  Works in place on a copy produced by `inlined()`; nothing is evaluated
+    beyond what `const_strs` (the module-constant evaluator of the caller) resolves."""
+    const_strs = const_strs or (lambda e: None)
+    # names that are mutated in place somewhere (`x[0:0] = ...`, `x.append(...)`, `x += ...`) are objects with identity: never substituted
+    mutated = set()
+    for x in ast.walk(fn):
+        if isinstance(x, (ast.Subscript, ast.Attribute)) and isinstance(x.ctx, (ast.Store, ast.Del)) and isinstance(x.value, ast.Name):
+            mutated.add(x.value.id)
+        elif isinstance(x, ast.AugAssign) and isinstance(x.target, ast.Name):
+            mutated.add(x.target.id)
+        elif isinstance(x, ast.Call) and isinstance(x.func, ast.Attribute) and isinstance(x.func.value, ast.Name) and \
+                x.func.attr in ('append', 'extend', 'insert', 'reverse', 'sort', 'pop', 'clear', 'remove', 'update', 'add', 'discard', 'setdefault'):
+            mutated.add(x.func.value.id)
+
+    def block(stmts, env):
+        out = []
+        for st in stmts:
+            if isinstance(st, ast.If):
+                st.test = _Repl(env).visit(st.test)
+                if isinstance(st.test, ast.Constant):
+                    out += block(st.body if st.test.value else st.orelse, env)
+                    continue
+                killed = _assigned_in(st.body + st.orelse)
+                st.body = block(st.body, dict(env))
+                st.orelse = block(st.orelse, dict(env))
+                for k in list(env):
+                    if k in killed or any(isinstance(y, ast.Name) and y.id in killed for y in ast.walk(env[k])):
+                        del env[k]
+                out.append(st)
+                continue
+            if isinstance(st, (ast.For, ast.While)):
+                killed = _assigned_in([st])
+                inner = {k: v for k, v in env.items() if k not in killed and not any(isinstance(y, ast.Name) and y.id in killed for y in ast.walk(v))}
+                if isinstance(st, ast.For):
+                    st.iter = _Repl(env).visit(st.iter)
+                    vals = const_strs(st.iter) if isinstance(st.target, ast.Name) else None
+                    if vals is not None and len(vals) <= max_unroll and not st.orelse and \
+                            not any(isinstance(y, (ast.Break, ast.Continue)) for b in st.body for y in ast.walk(b)):
+                        for v in vals:
+                            body = [copy.deepcopy(b) for b in st.body]
+                            e2 = dict(inner)
+                            e2[st.target.id] = ast.Constant(value=v)
+                            out += block(body, e2)
+                        for k in list(env):
+                            if k in killed:
+                                del env[k]
+                        continue
+                else:
+                    st.test = _Repl(inner).visit(st.test)
+                st.body = block(st.body, dict(inner))
+                st.orelse = block(st.orelse, dict(inner))
+                for k in list(env):
+                    if k not in inner:
+                        del env[k]
+                out.append(st)
+                continue
+            if isinstance(st, (ast.With, ast.Try)):
+                # no substitution across these (exceptional flow); names assigned inside are killed
+                killed = _assigned_in([st])
+                for k in list(env):
+                    if k in killed or any(isinstance(y, ast.Name) and y.id in killed for y in ast.walk(env[k])):
+                        del env[k]
+                out.append(st)
+                continue
+            if isinstance(st, ast.Assign) and len(st.targets) == 1 and isinstance(st.targets[0], ast.Name):
+                st.value = _Repl(env).visit(st.value)
+                name = st.targets[0].id
+                for k in list(env):
+                    if k == name or any(isinstance(y, ast.Name) and y.id == name for y in ast.walk(env[k])):
+                        del env[k]
+                if name not in mutated and _pure(st.value) and not any(isinstance(y, ast.Name) and y.id == name for y in ast.walk(st.value)):
+                    env[name] = st.value
+                elif _pure(st.value):
+                    pass            # `x = x[::-1]` with x unknown: keep the statement, no binding
+                out.append(st)
+                continue
+            new = _Repl(env).visit(st)
+            for k in _assigned_in([new]):
+                env.pop(k, None)
+                for k2 in list(env):
+                    if any(isinstance(y, ast.Name) and y.id == k for y in ast.walk(env[k2])):
+                        del env[k2]
+            out.append(new)
+        return out
+    fn.body = block(fn.body, {})
+    ast.fix_missing_locations(fn)
+    return fn
